@@ -198,12 +198,23 @@ def history(dc, sc, res, rng, label):
                 qs = pushkey(R, 'q')
                 exp = ('ok', (qs[0], R.pop(qs[0]))) if qs else ('ok', (None, None))
             else:
-                ev = gen.pick(rng, ['reopen', 'pickle', 'squeeze', 'clockjump'])
+                ev = gen.pick(rng, ['reopen', 'pickle', 'squeeze', 'clockjump', 'reopen_args'])
                 hist.append(('EVENT', ev))
                 if ev == 'reopen' and how == 'directory':
                     I.cache.close()
                     I = dc.Index(d)
                     res.count('reopen_events')
+                elif ev == 'reopen_args' and how == 'directory':
+                    # Index(directory, mapping-or-pairs, **kwargs) updates what is already stored
+                    pairs = [(gen.pick(rng, keys), val()) for _ in range(rng.randrange(0, 3))]
+                    kwargs = {'kw': val()} if rng.random() < 0.5 else {}
+                    I.cache.close()
+                    I = dc.Index(d, pairs if rng.random() < 0.5 else dict(pairs), **kwargs)
+                    R.update(pairs if True else None, **kwargs)
+                    res.count('reopen_events')
+                    if not same(list(I.items()), list(R.items())):
+                        return fail('Index(directory, items, **kwargs) on an existing directory holds %r, expected %r' % (
+                            list(I.items())[:6], list(R.items())[:6]))
                 elif ev == 'pickle':
                     I2 = pickle.loads(pickle.dumps(I))
                     extra.append(I2)
